@@ -20,7 +20,11 @@ T == D.defs["T"]
 InEnforced == c.enforced
 Cands == Candidates(T, D.defs, 2)
 StrCandsOf == SelectSeq(Cands, LAMBDA v : v.t = "str")
-Strings == [j \in DOMAIN StrCandsOf |-> StrCandsOf[j].c] \o
+(* the first candidates once more with surrounding white space: parsing must not be more lenient
+   than deserialising *)
+Padded == LET n == IF Len(StrCandsOf) > 4 THEN 4 ELSE Len(StrCandsOf) IN
+          [j \in 1 .. n |-> <<" ">> \o StrCandsOf[j].c \o <<" ">>]
+Strings == [j \in DOMAIN StrCandsOf |-> StrCandsOf[j].c] \o Padded \o
            (IF IsStringDoc(D) \/ ~InEnforced THEN ExtraStrings
                \o Flat([k \in DOMAIN <<"uuid", "ip", "ipv4", "ipv6", "date", "date-time">> |->
                          StrFormatSamples(<<"uuid", "ip", "ipv4", "ipv6", "date", "date-time">>[k])])
